@@ -71,6 +71,55 @@ def rule_route_dist(chk, prog):
     (r.ok if reads else r.bad)("selective test reads m_route_dist", mk.where(), "" if reads else "the test no longer compares against the cached route length")
 
 
+def rule_cost_bound(chk, prog):
+    """Routes are chosen by cost: the test that decides whether a removed obstacle can matter must bound the COST of the current route."""
+    from ..microai.interp import Interp, Obj, Vec, Box, Oracle, Unsupported, AssertFail, default_obj
+    from ..microai.poly import Poly, to_poly
+    r = chk.rule("REROUTE-COST-BOUND", "markPolylineConnectorsNeedingReroutingForDeletedObstacle: the value the lower bound for a path through the freed "
+                 "region is compared with (`conndist`), computed by interpreting the statements that define it for routes of 2, 3 and 5 points "
+                 "with symbolic route length D, segment penalty P and angle penalty Q: it is at least D + (points - 2) * (P + Q), an upper "
+                 "bound on the COST of the current route -- with a bare length a longer path with fewer bends, cheaper under a penalty, is "
+                 "never tried after the obstacle in its way has gone", floor=3)
+    fn = prog.fn("Avoid::Router::markPolylineConnectorsNeedingReroutingForDeletedObstacle")
+    decl = [n for n in fn.nodes() if n.get("k") == "VarDecl" and n.get("name") == "conndist"]
+    est = [n for n in fn.nodes() if n.get("k") == "VarDecl" and n.get("name") == "estdist"]
+    cv = [n for n in fn.nodes() if n.get("k") == "VarDecl" and n.get("name") == "conn"]
+    if len(decl) != 1 or len(est) != 1 or not cv:
+        raise AnalysisBroken("selective-reroute test: locals conndist / estdist / conn not found")
+    blk = [a for a in fn.ancestors(decl[0]) if a.get("k") == "CompoundStmt"][0]
+    stmts = blk.get("ch", [])
+    i0 = [k for k, st in enumerate(stmts) if any(x is decl[0] for x in walk(st))]
+    i1 = [k for k, st in enumerate(stmts) if any(x is est[0] for x in walk(st))]
+    if not i0 or not i1 or i1[0] <= i0[0]:
+        raise AnalysisBroken("selective-reroute test: the statements defining conndist were not located")
+    rp = prog.enums.get("Avoid::RoutingParameter")
+    RP = {e["name"]: int(e["v"]) for e in rp["enumerators"]} if rp else {}
+    D, P, Q = Poly.var("D"), Poly.var("P"), Poly.var("Q")
+
+    def rparam(it, n, env):
+        v = it.ev(call_args(n)[0], env)
+        return {RP.get("segmentPenalty"): P, RP.get("anglePenalty"): Q}.get(v, Fraction(0))
+    for npts in (2, 3, 5):
+        route = default_obj(prog, "Avoid::Polygon", {"ps": Vec([default_obj(prog, "Avoid::Point", {"x": Fraction(k), "y": Fraction(0), "id": 0, "vn": 8})
+                                                                 for k in range(npts)], "Avoid::Point")})
+        conn = default_obj(prog, "Avoid::ConnRef", {"m_route": route, "m_route_dist": D})
+        it = Interp(prog, Oracle([]), hooks={"Avoid::Router::routingParameter": rparam})
+        it.positive = {"D", "P", "Q"}
+        env = {cv[0]["did"]: Box(conn), "this": default_obj(prog, "Avoid::Router", {})}
+        r.count()
+        try:
+            for st in stmts[i0[0]:i1[0]]:
+                it.ex(st, env)
+        except (Unsupported, AssertFail) as e:
+            raise AnalysisBroken("statements defining conndist outside the interpreter subset: %s" % e)
+        got = to_poly(env[decl[0]["did"]].get())
+        want = to_poly(D) + (to_poly(P) + to_poly(Q)) * (npts - 2)
+        diff = got - want
+        ok = all(c >= 0 for c in diff.t.values())          # D, P, Q >= 0: every surplus term is non-negative
+        (r.ok if ok else r.bad)("route of %d points" % npts, fn.loc(decl[0]), "" if ok else
+                                "conndist = %s, which is below the route's cost bound %s" % (got, want))
+
+
 def rule_stateless(chk, prog):
     r = chk.rule("EDGE-TEST-STATELESS", "markPolylineConnectorsNeedingReroutingForDeletedObstacle: inside the loop over the obstacle's edges, "
                  "every local variable declared outside that loop and stored inside it is stored before it is read in each iteration (no "
@@ -569,6 +618,7 @@ def rule_skip_conditions(chk, prog):
 def run(chk):
     prog = chk.load()
     chk.guard(rule_route_dist, chk, prog)
+    chk.guard(rule_cost_bound, chk, prog)
     chk.guard(rule_stateless, chk, prog)
     chk.guard(rule_crossing_point, chk, prog)
     chk.guard(rule_skip_conditions, chk, prog)
